@@ -35,7 +35,7 @@ PROBES = ['violated_and_explained', 'satisfied_nothing_reported', 'variable_occu
           'everything_reported']
 ENVELOPE_RULES = []
 
-EXPLAIN_OPS = set(sg.ALL_OPS) - {'since', 'until', 'since_b', 'until_b', 'ln', 'log'}
+EXPLAIN_OPS = set(sg.ALL_OPS) - {'since', 'until', 'unless', 'since_b', 'until_b', 'unless_b', 'ln', 'log'}
 
 
 def envelope(sc):
